@@ -49,6 +49,9 @@ func cmdRegexp(p *lang.Process) (err error) {
 	if len(sRegex) > 4 {
 		return fmt.Errorf("invalid regexp (too many parameters) in: `%s`", p.Parameters.StringAll())
 	}
+	if len(sRegex[0]) == 0 {
+		return fmt.Errorf("invalid regexp (no function: expecting m, s or f) in: `%s`", p.Parameters.StringAll())
+	}
 
 	var rx *regexp.Regexp
 	if rx, err = regexp.Compile(sRegex[1]); err != nil {
